@@ -270,6 +270,15 @@ def run_case(case, ctx):
                 other = Document(io.BytesIO((corpus.samples_dir() / names[op["i"] % len(names)]).read_bytes()))
                 other.insert_style(Style("paragraph", name="N1", bold=True))
                 other.get_style("paragraph", "N1").set_attribute("style:class", "OTHER")
+                # the other document has generated automatic names of its own (same scheme: odfdo_auto_N)
+                for _ in range(op.get("autos", 0)):
+                    fam_ = case.get("focus") or "paragraph"
+                    try:
+                        other.insert_style(Style(fam_), automatic=True)
+                    except (ValueError, TypeError):
+                        break
+                if op.get("autos"):
+                    labels.add("merge-brings-generated-names")
                 ob = parts_of(other)
                 oidx = style_index(ob)
                 before = style_index(parts_of(doc))
@@ -336,6 +345,7 @@ def run_shard(ctx):
         st.fixed_dictionaries({"k": st.just("table_displayed"), "flag": st.booleans(), "share": st.sampled_from(["made", "made", "as-is"]), "which": st.integers(0, 2)}),
         st.fixed_dictionaries({"k": st.just("delete_styles")}),
         st.fixed_dictionaries({"k": st.just("merge"), "i": st.integers(0, 20)}),
+        st.fixed_dictionaries({"k": st.just("merge"), "i": st.integers(0, 20), "autos": st.integers(1, 4)}),
         st.fixed_dictionaries({"k": st.just("reload")}),
     )
     cases = st.fixed_dictionaries({"source": st.sampled_from(srcs), "ops": st.lists(op, min_size=1, max_size=8),
